@@ -231,3 +231,56 @@ def _c14_walrus_arg(v):
     import re
     return v['kind'] == 'is_definition' and d.get('got') is False and d.get('want') is True \
         and (d.get('ancestors') or [None])[0] in ('argument', 'subscript') and d.get('next_sibling') == ':='
+
+
+# ---------------------------------------------------------------------------
+# C20: crash sites of the PEP 8 normalizer, keyed by (exception type, function, text of the raising line)
+
+def _site_match(v, sites):
+    e = _exc(v)
+    for t, f, line_has in sites:
+        if e.get('type') == t and e.get('func') == f and line_has in (e.get('line') or ''):
+            return True
+    return False
+
+
+C20_TAB_SITES = [
+    ('TypeError', '__init__', 'self.bracket_indentation = parent_indentation'),
+    ('TypeError', '__init__', "self.indentation += ' '"),
+    ('TypeError', '_visit_node', 'self._indentation_tos.indentation + self._config.indentation'),
+    ('TypeError', '_visit_part', 'if len(indentation) < len(should_be_indentation):'),
+    ('TypeError', '_visit_part', 'if len(indentation) > len(n.indentation):'),
+]
+C20_STACK_SITES = [
+    ('AssertionError', '_visit_node', 'assert self._indentation_tos.type == IndentationTypes.SUITE'),
+    ('AttributeError', '_visit_node', 'assert self._indentation_tos.type == IndentationTypes.SUITE'),
+    ('AssertionError', '_visit_part', 'assert node.type != IndentationTypes.IMPLICIT'),
+    ('AttributeError', '_get_wanted_blank_lines_count', 'suite_node = self._indentation_tos.get_latest_suite_node()'),
+    ('AttributeError', '_visit_part', 'if node.type == IndentationTypes.BACKSLASH'),
+    ('AttributeError', '_visit_part', 'if len(indentation) > len(n.indentation):'),
+]
+C20_RECOVERED_SHAPE_SITES = [
+    ('AttributeError', '_defined_names', "if trailer.children[0] == '.':"),
+    ('AttributeError', '_is_magic_name', "return name.value.startswith('__') and name.value.endswith('__')"),
+    ('IndexError', '_analyse_non_prefix', 'right = comparison.children[index + 1]'),
+]
+
+
+@classifier('c20_tab_config_none_indentation')
+def _c20_tab(v):
+    """F-C20-1: under a tab indentation config a vertical bracket gets indentation None, which later code adds/measures"""
+    w = v.get('witness') or {}
+    return v['kind'] == 'normalizer_raised' and str(w.get('config', '')).startswith('tab') and _site_match(v, C20_TAB_SITES)
+
+
+@classifier('c20_indentation_stack_underflow')
+def _c20_stack(v):
+    """F-C20-2: the indentation-node stack is popped once too often (trailing comma in a set/dict display, backslash at
+    the start of a file, implicit-indentation nodes around recovered code); the next access finds None or a wrong node type"""
+    return v['kind'] == 'normalizer_raised' and _site_match(v, C20_STACK_SITES)
+
+
+@classifier('c20_recovered_tree_shapes')
+def _c20_shapes(v):
+    """F-C20-3: helper code assumes the shape of a valid tree (expr_stmt targets, comparison operands) on a recovered tree"""
+    return v['kind'] == 'normalizer_raised' and _site_match(v, C20_RECOVERED_SHAPE_SITES)
